@@ -1,6 +1,6 @@
 --------------------------- MODULE Conf_Camellia ----------------------------
 EXTENDS Camellia, Json, IOUtils
-VARIABLES l, inst
+VARIABLES tpos, inst
 Rec == ndJsonDeserialize(IOEnv.TRACE)
 OSched(t, k, x) == CamelliaSched(t, k, x)
 OEnc(ks, b) == CamelliaEnc(ks, b)
